@@ -523,6 +523,7 @@ type HarnessResult struct {
 	Verdicts   map[string]int
 	Violations []PathResult // distinct by verdict string (first model kept), not covered
 	Known      map[string]int
+	VCount     map[string]int
 	Aborts     []PathResult
 	Queries    int
 	SolverTime time.Duration
@@ -550,7 +551,7 @@ type Explorer struct {
 }
 
 func (ex *Explorer) Run(fn *ssa.Function) *HarnessResult {
-	hr := &HarnessResult{Name: fn.Name(), Verdicts: map[string]int{}, Known: map[string]int{}, Funcs: map[string]bool{}, Reached: map[string]bool{}}
+	hr := &HarnessResult{Name: fn.Name(), Verdicts: map[string]int{}, Known: map[string]int{}, VCount: map[string]int{}, Funcs: map[string]bool{}, Reached: map[string]bool{}}
 	t0 := time.Now()
 	var mu sync.Mutex
 	cond := sync.NewCond(&mu)
@@ -621,6 +622,7 @@ func (ex *Explorer) Run(fn *ssa.Function) *HarnessResult {
 					if res.Verdict.Kind == "UNWIND" {
 						hr.Unwinds++
 					}
+					hr.VCount[vs]++
 					if res.Covered != "" {
 						hr.Known[res.Covered]++
 					} else if !seenViol[vs] {
